@@ -7,10 +7,33 @@ NOT_APPLICABLE = {
     'C14': 'quantifies over rayon thread schedules; Kani has no threads and Verus cannot see rayon; the reachable fragment (commutativity/associativity of vector addition) is decided under C13 (DESIGN.md §5)',
     'C15': 'statement about exact probability laws over all random tapes; neither verifier has a probabilistic logic and the num-bigint/num-rational arithmetic would be all assumed contracts (DESIGN.md §5)',
 }
-for _p in ['C01', 'C06', 'C11', 'C17']:
-    NOT_APPLICABLE[_p] = _PENDING
+
 
 TEXT = {
+    'C01': {
+        'text': 'Partial: share reconstruction, multi-proof slicing, declared lengths. Kani proves on the real generic Prio3 code (harness-defined Types, recording XOF, Prng::get as its contract stub) that the leader shares equal the encoded measurement / proof minus the helper expansions and that verify_init gives proof p exactly its own block of the proof share and of the query randomness; Verus proves the circuits\' declared lengths and constructor-derived parameters. Aggregation is covered by C13.',
+        'note': 'NOT decided: that honest proofs verify (FLP completeness is a polynomial identity over NTT code), encode_measurement/decode_result of each type, end-to-end through the wire encodings.',
+        'technique': 'contract harnesses on the real generic code with contract stubs at the PRNG and Type boundaries (Kani) + extracted constructors/length accessors (Verus)',
+        'design_ref': 'DESIGN.md §4 C01, §8.4',
+    },
+    'C17': {
+        'text': 'Partial, bounded in the number of aggregators. Kani proves on the real Prio3::shard_with_random that every helper share is {seed[, blind]} taken verbatim from the sharding randomness (a function of the randomness only, for every measurement) and that the leader share is the encoding minus a measurement-independent mask; Verus proves for Poplar1 that the helper\'s correlated-randomness shares are verbatim stream elements.',
+        'note': 'NOT decided: Poplar1 IDPF keys (bitvec), byte-wise comparison of encoded shares. Kani allocator-model checks in __rust_dealloc are discounted for these harnesses (DESIGN 8.4b).',
+        'technique': 'postconditions over symbolic randomness and measurement on the real generic code (Kani) + extracted function contracts (Verus)',
+        'design_ref': 'DESIGN.md §4 C17',
+    },
+    'C11': {
+        'text': 'Partial: the fixed-key AES seed stream offset logic, for every 64-bit block counter and boundary in-block offsets, bounded in read length; Prng::into_new_field stream continuity.',
+        'note': 'NOT decided: rejection sampling and buffer refill in Prng::get, absorb order of the hash-based XOF constructors, Field255 sampling.',
+        'technique': 'function contract on the real fill() with the block hash uninterpreted (Kani/CBMC)',
+        'design_ref': 'DESIGN.md §4 C11',
+    },
+    'C06': {
+        'text': 'Partial: one tree level off the input path and the seed helpers, on the real generate_correction_word/eval_next with XOF expansion uninterpreted (Kani, all seeds/bits/values symbolic).',
+        'note': 'NOT decided: on-path step (thorough), composition over levels, Field255 leaves, cache transparency (bitvec normalisation): a change to NormalizedBitVec is not detected.',
+        'technique': 'function contracts on real code with uninterpreted XOF expansion (Kani/CBMC)',
+        'design_ref': 'DESIGN.md §4 C06',
+    },
     'C10': {
         'text': 'Partial: the array kernels around the transform, not the transform itself. Verus proves on the extracted text, for any field and every size: poly_eval_monomial == value of the polynomial (Horner == sum a_i x^i), ntt_inv_finish == index reversal + scaling with frame, the in-place interleave of double_evaluations, fp::log2 == ceil(log2), bitrev index range; ntt_internal reports size and capacity violations as the specified errors, accepts exactly the power-of-two sizes within the root table, and all its indices are in range for every size (memory safety + frame).',
         'note': 'NOT decided: forward NTT == evaluation at the powers of the root of unity, inverse undoes forward, barycentric evaluation, extension to a power of two, Lagrange multiplication. A mutation of a butterfly is not detected by this check (DESIGN.md section 4 C10).',
